@@ -12,6 +12,14 @@ BASE_NOTE = ("Both peers (and servers / registries / hostile clients) run real r
 
 # id -> (level, technique, level text, design ref, level_note extra)
 CHECKS = {
+    "C01": ("exploration",
+            "deterministic simulation: seeded call-tree programs executed in-process and distributed over two live peers under seeded link schedules; oracle = the in-process execution",
+            "Seeded search over call trees (side of each node, fan-out, depth <= 8, argument/result shapes incl. nested tuples mixing values and "
+            "references, keyword arguments, callables called back across the wire, raise and catch sites) x link schedules (fragmentation, laziness, "
+            "compression, GC events). The same program is run with plain calls and as a distributed computation; outcome, per-node invocation "
+            "counts, arguments seen (values equal, references resolving to the original), per-node results and final state of every by-reference "
+            "object must agree.",
+            "DESIGN.md C01", "No BgServingThread configuration (D7 would surface as spurious timeouts inside nested calls)."),
     "C05": ("fault_enumeration",
             "deterministic simulation: seeded fragmentation/fault schedules over real Channel+Stream; fatal cut swept over every byte offset (thorough)",
             "Seeded search over packet sequences x fragmentation patterns x transient read errors, with the fatal-fault dimension enumerated: "
